@@ -16,6 +16,7 @@ META = {
                  'the formula in the property statement; branch-fact extraction from the stack machines',
 }
 META['text'] += " The stack-machine arithmetic applies while a loop is in the recognised dispatch form; the interpreted layout model (L.m: every flat group's whole line within page and ribbon) decides independently of the form."
+META['text'] += ' Round 5: the interpreted layouts include documents scaled past every size constant of the layout engine; the ribbon fraction computed by the entry gives back the requested ribbon on a grid of page / ribbon widths (L.b).'
 
 
 def run(repo, rep):
